@@ -37,34 +37,44 @@ theorem readData_total (n : Nat) (r : Bytes) : (readData n r).isPanic = false :=
     | split
     | (dsimp only))
 
-/-- iterating the payload: every item the iterator yields is a value or an error -/
-theorem iterateE_total (sizes : List Nat) (fuel : Nat) (bs : Bytes) : ∀ r ∈ iterateE sizes fuel bs, r.isPanic = false := by
+/-- iterating the payload: every item the iterator yields is a value or an error (an entry that names
+no file of the header is an error) -/
+theorem iterateE_total (paths : List Bytes) (sizes : List Nat) (fuel : Nat) (bs : Bytes) :
+    ∀ r ∈ iterateE paths sizes fuel bs, r.isPanic = false := by
   induction fuel generalizing bs with
   | zero => intro r hr; simp [iterateE] at hr
   | succ k ih =>
     intro r hr
-    unfold iterateE at hr
     have h1 := readerNew_total sizes bs
-    split at hr
-    · split at hr
-      · simp at hr
-      · rename_i e fs r' _ _
-        have h2 := readData_total fs r'
-        split at hr
-        · simp only [List.mem_cons] at hr
-          rcases hr with rfl | hr
-          · rfl
-          · exact ih _ r hr
-        · simp only [List.mem_cons, List.not_mem_nil, or_false] at hr; subst hr; rfl
-        · rename_i s hs; rw [hs] at h2; cases h2
-    · simp only [List.mem_cons, List.not_mem_nil, or_false] at hr; subst hr; rfl
-    · rename_i s hs; rw [hs] at h1; cases h1
+    cases hrn : readerNew sizes bs with
+    | panic s => rw [hrn] at h1; cases h1
+    | err c => simp only [iterateE, hrn, List.mem_cons, List.not_mem_nil, or_false] at hr; subst hr; rfl
+    | ok x =>
+      obtain ⟨e, fs, r'⟩ := x
+      have h2 := readData_total fs r'
+      cases ht : isTrailer e with
+      | true => simp [iterateE, hrn, ht] at hr
+      | false =>
+        cases hf : fileIndex paths e with
+        | none => simp only [iterateE, hrn, ht, hf] at hr; simp at hr; subst hr; rfl
+        | some i =>
+          cases hd : readData fs r' with
+          | panic s => rw [hd] at h2; cases h2
+          | err c => simp only [iterateE, hrn, ht, hf, hd] at hr; simp at hr; subst hr; rfl
+          | ok y =>
+            obtain ⟨c, r''⟩ := y
+            simp only [iterateE, hrn, ht, hf, hd] at hr
+            simp only [Bool.false_eq_true, if_false, List.mem_cons] at hr
+            rcases hr with rfl | hr
+            · rfl
+            · exact ih _ r hr
 
-theorem iterate_total (archive : Bytes) (sizes : List Nat) : ∀ r ∈ iterate archive sizes, r.isPanic = false := by
+theorem iterate_total (archive : Bytes) (paths : List Bytes) (sizes : List Nat) :
+    ∀ r ∈ iterate archive paths sizes, r.isPanic = false := by
   intro r hr
   simp only [iterate, iterateFrom, List.mem_map] at hr
   obtain ⟨x, hx, rfl⟩ := hr
-  have := iterateE_total sizes _ _ x hx
+  have := iterateE_total paths sizes _ _ x hx
   cases x <;> simp_all [Out.map, Out.isPanic]
 
 /-- `signature_key_ids` never panics -/
@@ -94,13 +104,13 @@ theorem keyIds_total (S : SigScheme) (p : Package) : (keyIds S p).isPanic = fals
 /-- **read side, bundled**: on any package value, digest verification, signature verification (any
 verifier, stateful or not), key-id extraction and payload iteration end in a value or an error -/
 theorem readside_total (H : RpmVerif.DigestSpec.Hashes) (b64 : Bytes → Option Bytes) (v : RpmVerif.Verify.Verifier)
-    (S : SigScheme) (p : Package) (archive : Bytes) (sizes : List Nat) :
+    (S : SigScheme) (p : Package) (archive : Bytes) (paths : List Bytes) (sizes : List Nat) :
     (RpmVerif.Digest.verifyDigests H.md5 H.sha1 H.sha256 p).isPanic = false
     ∧ (RpmVerif.Verify.verifySignatureS H.md5 H.sha1 H.sha256 b64 v p).1.isPanic = false
     ∧ (keyIds S p).isPanic = false
-    ∧ (∀ r ∈ iterate archive sizes, r.isPanic = false)
+    ∧ (∀ r ∈ iterate archive paths sizes, r.isPanic = false)
     ∧ (RpmVerif.Acc.getFileEntries p.md.signature p.md.header).isPanic = false :=
   ⟨RpmVerif.C03.digests_total H p, RpmVerif.C02.verify_total H.md5 H.sha1 H.sha256 b64 v p,
-   keyIds_total S p, iterate_total archive sizes, getFileEntries_total _ _⟩
+   keyIds_total S p, iterate_total archive paths sizes, getFileEntries_total _ _⟩
 
 end RpmVerif.C04
